@@ -762,6 +762,13 @@ Definition bind_args (ps : list param) (defaults : list value) (args : list valu
   end.
 
 (* ---------------------------------------------------------------- shared small definitions *)
+(* the first n slots of a fresh locals array: the given initial values, then unbound *)
+Fixpoint pad_init (n : nat) (init : list (option value)) : list (option value) :=
+  match n with
+  | O => []
+  | S n => match init with v :: r => v :: pad_init n r | [] => None :: pad_init n [] end
+  end.
+
 Definition genv := list (option value).
 
 Fixpoint assoc {A} (x : string) (l : list (string * A)) : option A :=
